@@ -162,6 +162,8 @@ fn is_children_empty(children: &[Node]) -> bool {
     for n in children {
         match n {
             Node::Comment(..) => {}
+            // a text that is printed as nothing
+            Node::Text(value) if is_empty_value(value) => {}
             Node::Element(..) | Node::Text(..) | Node::UnknownMetaTag(..) => {
                 return false;
             }
